@@ -20,7 +20,7 @@ class Hang(Exception):
     pass
 
 
-def _threaded(code, ts, want):
+def _threaded(code, ts, want, hard=False):
     nd = NDCode(code, ts)
     # PART: bit0 pool size, bit1 job-level / pool-level limit, bit2 the scanner thread has already scanned once before close()
     nproc = 1 + PART % 2
@@ -32,12 +32,13 @@ def _threaded(code, ts, want):
     bp.PoolThread.start = lambda self, *a, **k: setattr(self, '_was_started', True)
     bp.PoolThread.join = lambda self, timeout=None: None
     try:
-        p = w.make_pool(nproc, threads=True, soft_timeout=None if joblevel else S, enable_timeouts=True)
+        lim = 'timeout' if hard else 'soft_timeout'
+        p = w.make_pool(nproc, threads=True, enable_timeouts=True, **{lim: None if joblevel else S})
         calls = []
 
         def tcb(soft=None, timeout=None):
             calls.append((soft, timeout))
-        A = W.Observer(p.apply_async(W.val, ('A',), soft_timeout=S if joblevel else None, timeout_callback=tcb), 'apply')
+        A = W.Observer(p.apply_async(W.val, ('A',), timeout_callback=tcb, **{lim: S if joblevel else None}), 'apply')
         w.feed()
         wk = p._pool[0]
         w.w_take(wk)
@@ -46,10 +47,18 @@ def _threaded(code, ts, want):
         scanner = p._timeout_handler.handle_timeouts()         # the scanner thread's own generator (TimeoutHandler.body)
         due_seen = [False]
 
+        scanner_alive = [True]
+
         def scan():
-            next(scanner)
-            if w.now >= t_acc + S and not A.h.ready():
-                due_seen[0] = True
+            if not scanner_alive[0]:
+                return
+            due = w.now >= t_acc + S and not A.h.ready()
+            if due:
+                due_seen[0] = True              # a scan period has come round with the limit expired and the job unfinished
+            try:
+                next(scanner)
+            except StopIteration:
+                scanner_alive[0] = False        # the scanner thread has ended (TimeoutHandler.body leaves its loop)
         if scan_before:
             w.adv(nd.draw(0, 2 * SMAX))
             scan()
@@ -65,11 +74,14 @@ def _threaded(code, ts, want):
             if polls[0] <= K:
                 w.adv(nd.draw(0, 2 * SMAX))
                 scan()                  # the scanner thread runs on until terminate()
-                if wk.state == 'busy' and nd.flag():
+                if wk.state == 'busy' and not wk.got_term and nd.flag() and not (hard and polls[0] < K):
                     w.w_done(wk)        # the task caught the soft limit (if any) and returns its value
             else:
-                if wk.state == 'busy':
+                if wk.state == 'busy' and not wk.got_term:
                     w.w_done(wk)
+            for x in w.procs:
+                if x.exitcode is None and x.got_term and x.obeys_term:
+                    x.die(-15)
             for x in p._pool:
                 if x.exitcode is None and x.state == 'idle' and p._inqueue.q:
                     w.w_take(x)
@@ -82,8 +94,24 @@ def _threaded(code, ts, want):
             return fail('C07:J2:join-hangs:threaded-shutdown')
         finally:
             p._outqueue._reader.idle_hook = None
+        if not scanner_alive[0]:
+            # "a time-limit scanner, if configured, runs on until terminate()" (C07): limits keep being enforced after close()
+            return fail('C05:time-limit-scanner-stopped-before-terminate')
         if want:
-            return False if (due_seen[0] and wk.soft_signals >= 1) else True
+            return False if (due_seen[0] and (wk.soft_signals >= 1 or hard)) else True
+        if hard:
+            from billiard.exceptions import TimeLimitExceeded
+            if due_seen[0]:
+                # the scanner thread runs on after close(): the overrunning job fails and its worker is told to go
+                if not A.observe().failed_with(TimeLimitExceeded):
+                    return fail('C05:T1:not-failed-at-expiry:after-close')
+                if (wk.pid, 15) not in w.signals:
+                    return fail('C05:T1:no-TERM:after-close')
+                if calls != [(False, S)]:
+                    return fail('C05:T1:timeout-callback:after-close')
+            elif A.observe().outcomes != [(True, ('r', 'A'))]:
+                return fail('C05:T2:wrong-outcome:after-close')
+            return True
         if A.observe().outcomes != [(True, ('r', 'A'))]:
             return fail('C06:task-that-catches-the-soft-limit-loses-its-value')
         expect = 1 if due_seen[0] else 0
@@ -114,5 +142,27 @@ def h_threaded_shutdown_twin(code: int, ts: List[int]) -> bool:
     """
     try:
         return _threaded(code, ts, True)
+    except Prune:
+        return True
+
+
+def h_hard_after_close(code: int, ts: List[int]) -> bool:
+    """
+    pre: 0 <= code < CODEMAX and len(ts) == K + 1
+    post: _
+    """
+    try:
+        return _threaded(code, ts, False, hard=True)
+    except Prune:
+        return True
+
+
+def h_hard_after_close_twin(code: int, ts: List[int]) -> bool:
+    """
+    pre: 0 <= code < CODEMAX and len(ts) == K + 1
+    post: _
+    """
+    try:
+        return _threaded(code, ts, True, hard=True)
     except Prune:
         return True
